@@ -3,6 +3,7 @@ package main
 import (
 	"fmt"
 	"go/ast"
+	"go/constant"
 	"go/token"
 	"go/types"
 	"strings"
@@ -11,7 +12,7 @@ import (
 func init() {
 	register(&propDef{
 		ID:          "C18",
-		Explanation: "Decides, for package lsp/jsonrpc2 (every function; go/cfg locksets and dominance, type-resolved): R1 every call of the Stream interface's Write holds one and the same write mutex of the connection (so whole frames are serialised) and all senders go through that one function; R2 in the framed stream's Write the length printed in the header is len() of the very byte slice passed to the following Write on the connection, with the Content-Length name and the blank-line separator as constants and no arithmetic on the length; R3 in the framed stream's Read the body buffer is make([]byte, length) with length parsed from the header, filled by io.ReadFull, on paths where length ≤ 0 and a missing header were rejected, and the header-line slice expressions are dominated by the `colon < 0` rejection; R4 in Call the reply channel is registered in the pending map (under its mutex) before the request is sent, has capacity ≥ 1, its removal is deferred, every access to the pending map holds its mutex, and the reader delivers a response only to the channel looked up by the response's own id; R5 the wait in Call selects on the reply and on ctx.Done(); also R3 the announced length has an upper bound before it sizes the allocation (a parse of at most 32 bits, or an explicit maximum test that dominates make), R4 the reply channel is made by the call itself (never recycled), and R6 DecodeMessage rejects no frame on a wire field that is optional (omitempty) and that this package's own encoder can leave null., R2 after a successful header write the body write follows on every path, and R7 no number parsed from the wire is narrowed by a conversion. R8 no goroutine of package jsonrpc2 writes to a stream's transport below the write lock (a frame is complete before the sender releases the lock); R9 the select in which a call waits for its response has no exit besides the response and the caller's context. NOT decided: all chunkings / schedules, JSON decoding of bodies. R10 no value holding a sync primitive by value is copied in package jsonrpc2 (a copied write lock excludes nobody); R11 the id decoder decodes into an integer or a string, never into json.Number or an interface (both accept the other JSON form: the string id \"7\" would become the number 7).",
+		Explanation: "Decides, for package lsp/jsonrpc2 (every function; go/cfg locksets and dominance, type-resolved): R1 every call of the Stream interface's Write holds one and the same write mutex of the connection (so whole frames are serialised) and all senders go through that one function; R2 in the framed stream's Write the length printed in the header is len() of the very byte slice passed to the following Write on the connection, with the Content-Length name and the blank-line separator as constants and no arithmetic on the length; R3 in the framed stream's Read the body buffer is make([]byte, length) with length parsed from the header, filled by io.ReadFull, on paths where length ≤ 0 and a missing header were rejected, and the header-line slice expressions are dominated by the `colon < 0` rejection; R4 in Call the reply channel is registered in the pending map (under its mutex) before the request is sent, has capacity ≥ 1, its removal is deferred, every access to the pending map holds its mutex, and the reader delivers a response only to the channel looked up by the response's own id; R5 the wait in Call selects on the reply and on ctx.Done(); also R3 the announced length has an upper bound before it sizes the allocation (a parse of at most 32 bits, or an explicit maximum test that dominates make), R4 the reply channel is made by the call itself (never recycled), and R6 DecodeMessage rejects no frame on a wire field that is optional (omitempty) and that this package's own encoder can leave null., R2 after a successful header write the body write follows on every path, and R7 no number parsed from the wire is narrowed by a conversion. R8 no goroutine of package jsonrpc2 writes to a stream's transport below the write lock (a frame is complete before the sender releases the lock); R9 the select in which a call waits for its response has no exit besides the response and the caller's context. NOT decided: all chunkings / schedules, JSON decoding of bodies. R10 no value holding a sync primitive by value is copied in package jsonrpc2 (a copied write lock excludes nobody); R11 the id decoder decodes into an integer or a string, never into json.Number or an interface (both accept the other JSON form: the string id \"7\" would become the number 7). R12/R13 no error result of package jsonrpc2 is dropped or detected and not reported; R14 every return leaves locks released; R15 the body of a frame is written to a writer that forwards on every path (a writer type of this package that tests the context first can refuse the body after the header went out).",
 		Assumptions: []string{"io.ReadFull returns an error unless exactly len(buf) bytes were read", "sync.Mutex provides mutual exclusion"},
 		Trusted:     []string{"go/types", "x/tools go/packages, go/cfg"},
 		Run:         runC18,
@@ -25,7 +26,11 @@ func runC18(c *Ctx) {
 	frameWritesAreSynchronous(c, "C18.R8")
 	responseWaitHasNoThirdExit(c, "C18.R9")
 	locksNeverCopied(c, "C18.R10", "lsp/jsonrpc2")
+	locksReleasedOnEveryReturn(c, "C18.R14", "lsp/jsonrpc2")
+	frameIsNotCutShort(c, "C18.R15")
 	idFormsDecodedIntoTheirOwnTypes(c, "C18.R11")
+	errorsNotLost(c, "C18.R12", "lsp/jsonrpc2")
+	errorsFoundAreReported(c, "C18.R13", "lsp/jsonrpc2")
 	p := c.pkg("lsp/jsonrpc2")
 	info := p.TypesInfo
 	bodies := funcBodies(p)
@@ -1544,4 +1549,176 @@ func responseWaitHasNoThirdExit(c *Ctx, rule string) {
 	}
 	c.count("response_waits", n)
 	c.floor(rule, 1)
+}
+
+// frameIsNotCutShort: C18.R15 — a frame is a header followed by a body; once the header is on the wire, the body must
+// follow, or the reader takes the next frame's header for this frame's body and every later message on the connection
+// is lost. R2 decides that the function itself goes from the header write to the body write on every path; this rule
+// follows the two writes INTO a writer type of this package they go through: its Write must forward on every path —
+// one that tests the context (or anything else) first can refuse the body after it let the header through.
+func frameIsNotCutShort(c *Ctx, rule string) {
+	p := c.pkg("lsp/jsonrpc2")
+	info := p.TypesInfo
+	decls := map[types.Object]*ast.FuncDecl{}
+	for _, fd := range allFuncDecls(p) {
+		decls[info.Defs[fd.Name]] = fd
+	}
+	// destination of a write call
+	dest := func(call *ast.CallExpr) ast.Expr {
+		if se, ok := call.Fun.(*ast.SelectorExpr); ok && (se.Sel.Name == "Write" || se.Sel.Name == "WriteString") {
+			if sel, ok := info.Selections[se]; ok && sel.Kind() == types.MethodVal {
+				return se.X
+			}
+		}
+		if fn := calleeOf(info, call); fn != nil && len(call.Args) > 0 {
+			switch fullName(fn) {
+			case "fmt.Fprintf", "fmt.Fprint", "fmt.Fprintln", "io.WriteString":
+				return call.Args[0]
+			}
+		}
+		return nil
+	}
+	mentionsLength := func(call *ast.CallExpr) bool {
+		found := false
+		ast.Inspect(call, func(n ast.Node) bool {
+			switch x := n.(type) {
+			case *ast.Ident:
+				if k, ok := info.Uses[x].(*types.Const); ok && k.Val().Kind() == constant.String && strings.Contains(constant.StringVal(k.Val()), "Content-Length") {
+					found = true
+				}
+			case *ast.BasicLit:
+				if strings.Contains(x.Value, "Content-Length") {
+					found = true
+				}
+			}
+			return true
+		})
+		return found
+	}
+	// a writer type of this package whose Write can return without having forwarded
+	refusing := func(t types.Type) string {
+		if pt, ok := t.(*types.Pointer); ok {
+			t = pt.Elem()
+		}
+		nt, ok := t.(*types.Named)
+		if !ok || nt.Obj().Pkg() != p.Types {
+			return ""
+		}
+		if _, isIface := nt.Underlying().(*types.Interface); isIface {
+			return ""
+		}
+		for i := 0; i < nt.NumMethods(); i++ {
+			m := nt.Method(i)
+			fd := decls[m]
+			if m.Name() != "Write" || fd == nil || fd.Body == nil {
+				continue
+			}
+			g := newFnCFG(fd.Body, info)
+			var fwd []*ast.CallExpr
+			ast.Inspect(fd.Body, func(n ast.Node) bool {
+				if call, ok := n.(*ast.CallExpr); ok && dest(call) != nil {
+					fwd = append(fwd, call)
+				}
+				return true
+			})
+			res := ""
+			ast.Inspect(fd.Body, func(n ast.Node) bool {
+				if _, ok := n.(*ast.FuncLit); ok {
+					return false
+				}
+				r, ok := n.(*ast.ReturnStmt)
+				if !ok {
+					return true
+				}
+				covered := false
+				for _, f := range fwd {
+					if (f.Pos() >= r.Pos() && f.End() <= r.End()) || g.happensBefore(f, r) {
+						covered = true
+					}
+				}
+				if !covered && res == "" {
+					res = nt.Obj().Name() + ".Write returns at " + c.pos(r.Pos()) + " without having written"
+				}
+				return true
+			})
+			return res
+		}
+		return ""
+	}
+	nframed := 0
+	for _, fd := range allFuncDecls(p) {
+		if fd.Body == nil {
+			continue
+		}
+		var writes []*ast.CallExpr
+		ast.Inspect(fd.Body, func(n ast.Node) bool {
+			if _, ok := n.(*ast.FuncLit); ok {
+				return false
+			}
+			if call, ok := n.(*ast.CallExpr); ok && dest(call) != nil {
+				writes = append(writes, call)
+			}
+			return true
+		})
+		var hdr *ast.CallExpr
+		for _, w := range writes {
+			if mentionsLength(w) {
+				hdr = w
+				break
+			}
+		}
+		if hdr == nil {
+			continue
+		}
+		g := newFnCFG(fd.Body, info)
+		var body *ast.CallExpr
+		for _, w := range writes {
+			if w != hdr && g.happensBefore(hdr, w) {
+				body = w
+			}
+		}
+		key := funcKey(p, fd)
+		if body == nil {
+			// header and body leave in one write (or the body is written elsewhere): nothing lies between them here
+			c.ok(rule, key+"|frame-in-one-write", c.pos(hdr.Pos()), "the header write is the only transport write of the function")
+			nframed++
+			continue
+		}
+		nframed++
+		// (2) the writers the two writes go through
+		for _, w := range []*ast.CallExpr{body} { // (a header that is refused has started no frame)
+			d := ast.Unparen(dest(w))
+			t := info.TypeOf(d)
+			if id, ok := d.(*ast.Ident); ok {
+				// a local holding a wrapper: the type of what it was assigned
+				if v, ok := info.ObjectOf(id).(*types.Var); ok {
+					ast.Inspect(fd.Body, func(n ast.Node) bool {
+						if as, ok := n.(*ast.AssignStmt); ok && len(as.Lhs) == len(as.Rhs) {
+							for i, l := range as.Lhs {
+								if lid, ok := l.(*ast.Ident); ok && info.ObjectOf(lid) == types.Object(v) {
+									if rt := info.TypeOf(as.Rhs[i]); rt != nil {
+										if r := refusing(rt); r != "" {
+											t = rt
+										}
+									}
+								}
+							}
+						}
+						return true
+					})
+				}
+			}
+			why := ""
+			if t != nil {
+				why = refusing(t)
+			}
+			which := "header"
+			if w == body {
+				which = "body"
+			}
+			c.check(why == "", rule, key+"|"+which+"-writer-never-refuses", c.pos(w.Pos()), "the "+which+" is written to a writer that always forwards",
+				"the "+which+" of the frame is written through a writer of this package that can refuse ("+why+"): when it refuses the body after the header has gone out, the frame is cut short and every later message on the connection is lost")
+		}
+	}
+	c.control(rule+":framed-writer-found", nframed >= 1)
 }
